@@ -324,7 +324,16 @@ func deextract(repo string, cfg BuildConfig, ref symTable, overlay map[string][]
 				lit := append([]byte("("), content[ls:le]...)
 				lit = append(lit, ')')
 				// two edits: the declaration disappears, the use becomes the literal; reserve the whole range
-				perFile[fname] = append(perFile[fname], span{ds, de, nil}, span{us, ue, lit}, span{de, us, append([]byte{}, content[de:us]...)})
+				between := append([]byte{}, content[de:us]...)
+				for _, st := range site.drop {
+					bs, be := fset.Position(st.Pos()).Offset, fset.Position(st.End()).Offset
+					if bs >= de && be <= us {
+						for i := bs - de; i < be-de; i++ {
+							between[i] = ' ' // the `_ = f` statement goes with the variable
+						}
+					}
+				}
+				perFile[fname] = append(perFile[fname], span{ds, de, nil}, span{us, ue, lit}, span{de, us, between})
 			}
 			for _, site := range findIIFEs(pkgs) {
 				if !changedAny {
@@ -920,7 +929,9 @@ func flattenOne(site iifeSite) string {
 		}
 		return true
 	})
-	if clash || (multi && !site.isRet) {
+	// (`r1, r2 = f()` is as legal as `return f()`: the results are assignable to the variables by the same rule)
+	_ = multi
+	if clash {
 		return ""
 	}
 	// from here on the syntax tree is modified (it is re-parsed before the next round)
@@ -1096,6 +1107,7 @@ type closureVarSite struct {
 	decl ast.Stmt
 	lit  ast.Expr // the function literal, or a method value / function name the variable was bound to
 	use  *ast.Ident
+	drop []ast.Stmt // `_ = f` statements (what the inliner adds to keep an unused binding legal)
 }
 
 func findClosureVars(pkgs map[string]*packages.Package) []closureVarSite {
@@ -1109,6 +1121,17 @@ func findClosureVars(pkgs map[string]*packages.Package) []closureVarSite {
 			// uses per object
 			uses := map[types.Object][]*ast.Ident{}
 			callFun := map[*ast.Ident]bool{}
+			blankUse := map[*ast.Ident]ast.Stmt{}
+			ast.Inspect(f, func(n ast.Node) bool {
+				if as, ok := n.(*ast.AssignStmt); ok && as.Tok == token.ASSIGN && len(as.Lhs) == 1 && len(as.Rhs) == 1 {
+					if l, ok := as.Lhs[0].(*ast.Ident); ok && l.Name == "_" {
+						if r, ok := as.Rhs[0].(*ast.Ident); ok {
+							blankUse[r] = as
+						}
+					}
+				}
+				return true
+			})
 			ast.Inspect(f, func(n ast.Node) bool {
 				switch x := n.(type) {
 				case *ast.Ident:
@@ -1186,7 +1209,15 @@ func findClosureVars(pkgs map[string]*packages.Package) []closureVarSite {
 				if obj == nil {
 					return
 				}
-				us := uses[obj]
+				var us []*ast.Ident
+				var drop []ast.Stmt
+				for _, u := range uses[obj] {
+					if st, isBlank := blankUse[u]; isBlank {
+						drop = append(drop, st)
+						continue
+					}
+					us = append(us, u)
+				}
 				if len(us) != 1 || !callFun[us[0]] {
 					return
 				}
@@ -1196,7 +1227,7 @@ func findClosureVars(pkgs map[string]*packages.Package) []closureVarSite {
 				if us[0].Pos() < st.End() {
 					return
 				}
-				out = append(out, closureVarSite{pk, f, st, lit, us[0]})
+				out = append(out, closureVarSite{pk, f, st, lit, us[0], drop})
 			}
 			ast.Inspect(f, func(n ast.Node) bool {
 				var list []ast.Stmt
